@@ -106,6 +106,10 @@ Fixpoint set_nth (l : list Z) (i : nat) (f : Z -> Z) : result (list Z) :=
   | d :: r, S i' => r' <- set_nth r i' f ;; Ok (d :: r')
   end.
 
+(* data[i] = v  (used by the flattened class bodies, Gen/reloc_bodies.v) *)
+Definition set_byte (data : list Z) (i : Z) (v : Z) : result (list Z) :=
+  set_nth data (Z.to_nat i) (fun _ => v).
+
 (* ---------------------------------------------------------------- relocation classes *)
 Inductive rkind :=
   | RvBImm12 | RvBImm20 | RvAbs32Imm20 | RvRelImm20 | RvAbs32Imm12 | RvRelImm12 | RvAbsAddr32
